@@ -113,5 +113,54 @@ def rule_rec(prog):
     return res
 
 
+def rule_order(prog):
+    """R-DM-ORDER: the EndMacro(id) marker that takes the id out of active_macros is consumed after the macro's own
+    items. Items are prepended with push_front (or appended with push_back): the marker must be pushed before the
+    first push_front of an item (resp. after the last push_back)."""
+    res = RuleResult("R-DM-ORDER", "the end-of-macro marker is queued behind the macro's items", floor=1)
+    f = prog.fn(DM + "play_macro")
+    res.fn(f)
+    ITEM = DM + "DynamicMacroItem"
+    marks, items = [], []
+    for b, t in f.calls():
+        cn = (callee_name(t) or "").split("::")[-1]
+        if cn not in ("push_front", "push_back"):
+            continue
+        fl = receiver_fields(f, t)
+        if not (fl and fl[-1] == "macro_items"):
+            continue
+        from kq.core import Resolver
+        r = Resolver(f).root(t["args"][1])
+        if r[0] == "agg" and r[1][2].get("adt") == ITEM and r[1][2].get("v") == "EndMacro":
+            marks.append((b, cn, t))
+        else:
+            items.append((b, cn, t))
+    res.inst("anchors", end_markers=len(marks), item_pushes=len(items))
+    n = 0
+    for (mb, mk, mt) in marks:
+        for (ib, ik, it) in items:
+            if ik != mk:
+                continue
+            # same branch only: one dominates the other
+            if not (f.dominates(mb, ib) or f.dominates(ib, mb) or ib in f.reach_from(mb) or mb in f.reach_from(ib)):
+                continue
+            if not (ib in f.reach_from(mb) or mb in f.reach_from(ib)):
+                continue
+            n += 1
+            if mk == "push_front":
+                ok = ib in f.reach_from(mb) and mb not in f.reach_from(ib)
+            else:
+                ok = mb in f.reach_from(ib) and ib not in f.reach_from(mb)
+            res.inst("marker-behind-items#%d" % n, how=mk, ok=ok)
+            res.oblige(ok)
+            if not ok:
+                res.viol("marker-behind-items/%s" % mk, "%s:%s" % (f.file, mt.get("ln")),
+                         "EndMacro(id) is queued in front of the macro's items (%s order): the id leaves active_macros before the items "
+                         "run, so a macro that contains its own play key replays itself without end" % mk)
+    if not marks:
+        res.viol("anchors", f.loc, "play_macro no longer queues an EndMacro marker")
+    return res
+
+
 def run_all(prog):
-    return [rule_release(prog), rule_rec(prog)]
+    return [rule_release(prog), rule_rec(prog), rule_order(prog)]
